@@ -324,22 +324,26 @@ theorem c38 (h : S A (.seq (.seq (.str [48, 120]) (.ref 1007)) (.plus (.ref 1007
   rw [txt_mk, seg_drop]
   exact parseRadix_seg (AllIn.cons hc (toDigit_hex hcr) this.2) (by have := this.1; simp at this ⊢; omega)
 
-theorem c31 (h : S N (.seq (.seq (.seq (.seq (.ref 32) (.str [40])) (.star (.ref 41))) (.star (.seq (.str [44]) (.ref 41)))) (.str [41])) p p' ks) :
+theorem c31 (h : S N (.seq (.seq (.seq (.ref 32) (.str [40])) (.opt (.seq (.ref 41) (.star (.seq (.str [44]) (.ref 41)))))) (.str [41])) p p' ks) :
     ∃ name args, ks = name :: args ∧ AllE inp args := by
-  obtain ⟨_, _, k1234, k5, h1234, _, h5, rfl⟩ := sem_seq.1 h
-  obtain ⟨_, _, k123, k4, h123, _, h4, rfl⟩ := sem_seq.1 h1234
+  obtain ⟨_, _, k123, k5, h123, _, h5, rfl⟩ := sem_seq.1 h
   obtain ⟨_, _, k12, k3, h12, _, h3, rfl⟩ := sem_seq.1 h123
   obtain ⟨_, _, k1, k2, h1, _, h2, rfl⟩ := sem_seq.1 h12
   obtain ⟨t, rfl⟩ := r32 h1
   rw [s_str h2, s_str h5]
-  have e3 : AllE inp k3 := sem_star_all (Q := AllE inp) AllE.nil (fun x y => AllE.append)
-    (fun q q' k hk => by obtain ⟨t, rfl, ht⟩ := (r41N hk).term; exact AllE.one ht) h3
-  have e4 : AllE inp k4 := sem_star_all (Q := AllE inp) AllE.nil (fun x y => AllE.append)
-    (fun q q' k hk => by
-      obtain ⟨_, _, ka, kb, ha, _, hb, rfl⟩ := sem_seq.1 hk
-      rw [s_str ha]
-      obtain ⟨t, rfl, ht⟩ := (r41N hb).term; exact AllE.one ht) h4
-  exact ⟨t, k3 ++ k4, by simp, e3.append e4⟩
+  have e3 : AllE inp k3 := by
+    rcases sem_opt.1 h3 with h3 | ⟨_, rfl⟩
+    · obtain ⟨_, _, ka, kb, ha, _, hb, rfl⟩ := sem_seq.1 h3
+      have ea : AllE inp ka := by
+        obtain ⟨t, rfl, ht⟩ := (r41N ha).term; exact AllE.one ht
+      have eb : AllE inp kb := sem_star_all (Q := AllE inp) AllE.nil (fun x y => AllE.append)
+        (fun q q' k hk => by
+          obtain ⟨_, _, ka, kb, ha, _, hb, rfl⟩ := sem_seq.1 hk
+          rw [s_str ha]
+          obtain ⟨t, rfl, ht⟩ := (r41N hb).term; exact AllE.one ht) hb
+      exact ea.append eb
+    · exact AllE.nil
+  exact ⟨t, k3, by simp, e3⟩
 
 theorem c30 (h : S N (.seq (.seq (.seq (.seq (.ref 32) (.str [40])) (.star (.ref 33))) (.star (.seq (.str [44]) (.ref 33)))) (.str [41])) p p' ks) :
     One 30 p p' [Pair.mk 30 p p' ks] (fun t => ∃ name params, t.kids = name :: params) := by
